@@ -255,6 +255,9 @@ def c09(rep, env):
         only(rep, lambda r: SM.check_belt(r, fb, parts=("par", "def")), pre("par.closed-form", "belt.ks.advance"))
         MI.check_overrides(rep, fb)
         MI.check_plumbing(rep, fb)     # the state must survive between calls (nothing but the kernels writes it)
+        # the state rules above are evaluated on the buffer-to-buffer form of the kernels; the state
+        # exported after IN-PLACE processing is the same only if both forms leave the same state
+        only(rep, lambda r: BM.check_inplace(r, fb), pre("alias.same.state"))
     per_config(rep, env, f)
 
 
@@ -409,7 +412,7 @@ REGISTRY = {
     "C06": {"run": c06, "level": "proof", "floors": {"belt.init": 1, "belt.ks.block": 1, "par.closed-form": 2}},
     "C07": {"run": c07, "level": "proof", "floors": {"par.no-override": 11, "par.closed-form": 18, "par.n-fold": 14, "helpers.par-group": 7, "control.par": 4}},
     "C08": {"run": c08, "level": "proof", "floors": {"buf.def": 12, "buf.chunk": 14, "def.out": 3, "ctr.ks.block": 6, "belt.ks.block": 1, "alias.wrapper": 8}},
-    "C09": {"run": c09, "level": "proof", "floors": {"ivstate.export-public": 12, "ivstate.resume": 14, "ctr.resume": 6, "buf.state": 4}},
+    "C09": {"run": c09, "level": "proof", "floors": {"alias.same.state": 16, "ivstate.export-public": 12, "ivstate.resume": 14, "ctr.resume": 6, "buf.state": 4}},
     "C10": {"run": c10, "level": "proof", "floors": {"pos.get": 7, "pos.set": 7, "pos.counter-type": 7, "pos.core": 12}},
     "C11": {"run": c11, "level": "other", "floors": {"rem.exact": 7, "ctr.ks.advance": 6, "belt.ks.advance": 1, "wrapper.check-dominates": 3, "rem.ofb-unbounded": 1}},
     "C12": {"run": c12, "level": "proof", "floors": {"alias.same.out": 70, "alias.no-old-output": 70, "control.alias": 4}},
